@@ -11,11 +11,11 @@ namespace Sympler.SmartList
 
 theorem slot2chunk_eq {p : Params} (h : p.chunkLen = 2 ^ p.chunkSh) (x : Nat) :
     slot2chunk p x = x / p.chunkLen := by
-  simp [slot2chunk, Nat.shiftRight_eq_div_pow, h]
+  simp [slot2chunk, Gen.SmartList.slot2chunk, Nat.shiftRight_eq_div_pow, h]
 
 theorem slot2index_eq {p : Params} (h : p.chunkLen = 2 ^ p.chunkSh) (x : Nat) :
     slot2index p x = x % p.chunkLen := by
-  simp [slot2index, h]
+  simp [slot2index, Gen.SmartList.slot2index, h]
 
 theorem chunkLen_pos {p : Params} (h : p.chunkLen = 2 ^ p.chunkSh) : 0 < p.chunkLen := by
   rw [h]; exact Nat.two_pow_pos _
